@@ -434,7 +434,15 @@ randombytes_internal_random_stir(void)
         global.initialized = 1;
     }
 #ifdef HAVE_GETPID
-    global.pid = getpid();
+    {
+        const pid_t pid = getpid();
+
+        /* every thread gets here on its first use: do not store the value
+         * again while other threads may be reading it */
+        if (global.pid != pid) {
+            global.pid = pid;
+        }
+    }
 #endif
 
 #ifndef _WIN32
